@@ -22,6 +22,8 @@
 //   T secs           advance the fake clock
 //   D sid            destroy session
 //   Z dict...        (no session alive) raw dump of the named user dbs
+//   !                the process is killed here: _exit(137), no destructor runs, nothing is flushed, no mark in the log
+//                    (C11: kill at a command boundary)
 #include <unistd.h>
 #include <rime_api.h>
 #include <rime/common.h>
